@@ -289,6 +289,13 @@ class Escape(object):
             k = self.p.exc_key(r)
             it0 = Item(k, 'explicit', [self._frame(func, st, text)], func.qname, text)
             out.setdefault(it0.ident(), it0)
+        elif isinstance(exc, ast.Call) and isinstance(cls_expr, ast.Attribute) and \
+                self._exc_class_of_factory(func, cls_expr, env) is not None:
+            # raise SomeError.from_xxx(...): a factory (static/class method) of an exception class
+            k = self._exc_class_of_factory(func, cls_expr, env)
+            it0 = Item(k, 'explicit', [self._frame(func, st, text)], func.qname, text)
+            out.setdefault(it0.ident(), it0)
+            self._merge(out, self._expr(exc, env))
         elif isinstance(exc, ast.Call):
             # raise self.chipset_error(x): the call itself raises
             self._merge(out, self._expr(exc, env))
@@ -308,6 +315,14 @@ class Escape(object):
                 it0 = Item(k, 'unknown', [self._frame(func, st, text)], func.qname, text)
                 out[it0.ident()] = it0
         return out
+
+    def _exc_class_of_factory(self, func, attr, env):
+        r = self.r._static(func, attr.value, env['ctx']) if isinstance(attr.value, (ast.Name, ast.Attribute)) else None
+        if r is not None and r[0] == 'class' and self.p.exc_is_sub(r[1].qname, 'Exception'):
+            m = self.p.lookup(r[1], attr.attr)
+            if isinstance(m, FuncInfo) and m.kind in ('staticmethod', 'classmethod'):
+                return r[1].qname
+        return None
 
     def _stored_exception(self, expr, env):
         """raise error  where error was assigned from an except-variable elsewhere in the function."""
